@@ -287,4 +287,172 @@ theorem readNumber_ok (s : State) (ch : UInt8) (start : Nat) (hs : s.pos = start
     | inl h' => rw [h'] at h; cases h
     | inr h' => rw [h'] at h; cases h
 
+/-! ### nextCore -/
+
+/-- what `nextCore` returns from a state `s1` standing on a non-whitespace byte -/
+def CoreSpec (s1 : State) (r : Tok × State) : Prop :=
+  r.2 = { s1 with pos := r.2.pos } ∧
+  ((r.1 = eolEof s1.lineMode ∧ s1.pos ≤ r.2.pos ∧ peekAt s1.input r.2.pos = 0
+      ∧ (r.2.pos = s1.pos ∨ peekAt s1.input s1.pos = 34 ∨ peekAt s1.input s1.pos = 96))
+   ∨ TokOK s1.input s1.pos r.1 r.2.pos)
+
+theorem core_c1 {s1 : State} {ch : UInt8} (hch : peekAt s1.input s1.pos = ch)
+    (hk : (cTokens.lookup ch).isSome = true) :
+    CoreSpec s1 (constantTokenChar ch, { s1 with pos := s1.pos + 1 }) :=
+  ⟨rfl, Or.inr (TokOK.c1 hch hk)⟩
+
+theorem core_c2 {s1 : State} {a b : UInt8} (ha : peekAt s1.input s1.pos = a)
+    (hb : peekAt s1.input (s1.pos + 1) = b) (hb0 : b ≠ 0) (hk : (c2Tokens.lookup (a, b)).isSome = true) :
+    CoreSpec s1 (constantTokenChar2 a b, { s1 with pos := s1.pos + 1 + 1 }) :=
+  ⟨rfl, Or.inr (TokOK.c2 ha hb hb0 hk)⟩
+
+theorem core_string (s1 : State) (q : UInt8) (hq : peekAt s1.input s1.pos = q) (hq2 : q = 34 ∨ q = 96) :
+    CoreSpec s1
+      (if (!(readString { s1 with pos := s1.pos + 1 } q).2.1) = true then
+        (State.eolEof (readString { s1 with pos := s1.pos + 1 } q).2.2,
+          { (readString { s1 with pos := s1.pos + 1 } q).2.2 with
+            pos := (readString { s1 with pos := s1.pos + 1 } q).2.2.pos - 1 })
+      else (internTok STRING (readString { s1 with pos := s1.pos + 1 } q).1,
+          (readString { s1 with pos := s1.pos + 1 } q).2.2)) := by
+  have hq0 : q ≠ 0 := by cases hq2 <;> (rename_i h; rw [h]; decide)
+  have sp := readStringLoop_spec q hq0 (q == 34) (s1.input.size + 1 - (s1.pos + 1)) { s1 with pos := s1.pos + 1 }
+    (by simp; omega)
+  unfold readString
+  obtain ⟨r, hr⟩ : ∃ r, readStringLoop q (q == 34) (s1.input.size + 1 - (s1.pos + 1)) { s1 with pos := s1.pos + 1 } = r := ⟨_, rfl⟩
+  simp only [hr]
+  rw [hr] at sp
+  have same := sp.same
+  have ge := sp.ge
+  simp only [] at same ge
+  by_cases c : (!r.2.1) = true
+  · simp only [c, ↓reduceIte]
+    have hf : r.2.1 = false := by simpa using c
+    obtain ⟨h1, h2⟩ := sp.okF hf
+    refine ⟨by rw [same], Or.inl ⟨by rw [same]; rfl, by simp; omega, by simpa using h2, Or.inr ?_⟩⟩
+    rw [hq]; exact hq2
+  · simp only [c, Bool.false_eq_true, ↓reduceIte]
+    have ht : r.2.1 = true := by simpa using c
+    obtain ⟨h1, h2, h3⟩ := sp.okT ht
+    simp only [] at h1 h2 h3
+    refine ⟨same, Or.inr ?_⟩
+    show TokOK s1.input s1.pos (internTok STRING r.1) r.2.2.pos
+    exact ⟨by omega, h2, by simp [internTok, Tok.WF], by simp [internTok],
+      fun h => by simp [internTok] at h, fun _ _ => ⟨by omega, by rw [hq]; exact hq2, by rw [h3, hq]⟩,
+      fun _ h => by simp [internTok] at h, fun _ h => by simp [internTok] at h, fun _ h => by simp [internTok] at h⟩
+
+theorem nextSwitch_spec (s1 : State) (ch nc : UInt8) (hch : peekAt s1.input s1.pos = ch)
+    (hnc : peekAt s1.input (s1.pos + 1) = nc) (s : State) (hs : s = { s1 with pos := s1.pos + 1 }) :
+    CoreSpec s1 (nextSwitch ch nc s) := by
+  unfold nextSwitch
+  simp only []
+  by_cases c : (ch == 61 || ch == 33 || ch == 58) = true
+  · rw [if_pos c]
+    simp only [Bool.or_eq_true, beq_iff_eq] at c
+    by_cases d : (nc == 61) = true
+    · rw [if_pos d]; have d := beq_iff_eq.mp d; subst d; subst hs
+      rcases c with (rfl | rfl) | rfl <;> exact core_c2 hch hnc (by decide) (by decide)
+    · rw [if_neg d]
+      by_cases e : (nc == 62 && ch == 61) = true
+      · rw [if_pos e]; simp only [Bool.and_eq_true, beq_iff_eq] at e
+        obtain ⟨e1, e2⟩ := e; subst e1; subst e2; subst hs
+        exact core_c2 hch hnc (by decide) (by decide)
+      · rw [if_neg e]; subst hs
+        rcases c with (rfl | rfl) | rfl <;> exact core_c1 hch (by decide)
+  rw [if_neg c]; clear c
+  by_cases c : (ch == 43 || ch == 45) = true
+  · rw [if_pos c]
+    simp only [Bool.or_eq_true, beq_iff_eq] at c
+    by_cases d : (nc == ch) = true
+    · rw [if_pos d]; have d := beq_iff_eq.mp d; subst d; subst hs
+      rcases c with rfl | rfl <;> exact core_c2 hch hnc (by decide) (by decide)
+    · rw [if_neg d]; subst hs
+      rcases c with rfl | rfl <;> exact core_c1 hch (by decide)
+  rw [if_neg c]; clear c
+  by_cases c : (ch == 37 || ch == 42 || ch == 59 || ch == 44 || ch == 123 || ch == 125 || ch == 40 || ch == 41
+      || ch == 91 || ch == 93 || ch == 94 || ch == 126) = true
+  · rw [if_pos c]
+    simp only [Bool.or_eq_true, beq_iff_eq] at c
+    subst hs
+    rcases c with ((((((((((rfl | rfl) | rfl) | rfl) | rfl) | rfl) | rfl) | rfl) | rfl) | rfl) | rfl) | rfl <;>
+      exact core_c1 hch (by decide)
+  rw [if_neg c]; clear c
+  by_cases c : (ch == 47) = true
+  · rw [if_pos c]; have c := beq_iff_eq.mp c; subst c
+    by_cases d : (nc == 47) = true
+    · rw [if_pos d]; have d := beq_iff_eq.mp d; subst d; subst hs
+      have h := readLineComment_ok { s1 with pos := s1.pos + 1 } s1.pos rfl hch hnc
+      exact ⟨h.2, Or.inr h.1⟩
+    · rw [if_neg d]
+      by_cases e : (nc == 42) = true
+      · rw [if_pos e]; have e := beq_iff_eq.mp e; subst e; subst hs
+        have h := readBlockComment_ok { s1 with pos := s1.pos + 1 } s1.pos rfl hch hnc
+        exact ⟨h.2, Or.inr h.1⟩
+      · rw [if_neg e]; subst hs; exact core_c1 hch (by decide)
+  rw [if_neg c]; clear c
+  by_cases c : (ch == 124 || ch == 38) = true
+  · rw [if_pos c]
+    simp only [Bool.or_eq_true, beq_iff_eq] at c
+    by_cases d : (nc == ch) = true
+    · rw [if_pos d]; have d := beq_iff_eq.mp d; subst d; subst hs
+      rcases c with rfl | rfl <;> exact core_c2 hch hnc (by decide) (by decide)
+    · rw [if_neg d]; subst hs
+      rcases c with rfl | rfl <;> exact core_c1 hch (by decide)
+  rw [if_neg c]; clear c
+  by_cases c : (ch == 60 || ch == 62) = true
+  · rw [if_pos c]
+    simp only [Bool.or_eq_true, beq_iff_eq] at c
+    by_cases d : (nc == ch) = true
+    · rw [if_pos d]; have d := beq_iff_eq.mp d; subst d; subst hs
+      rcases c with rfl | rfl <;> exact core_c2 hch hnc (by decide) (by decide)
+    · rw [if_neg d]
+      by_cases e : (nc == 61) = true
+      · rw [if_pos e]; have e := beq_iff_eq.mp e; subst e; subst hs
+        rcases c with rfl | rfl <;> exact core_c2 hch hnc (by decide) (by decide)
+      · rw [if_neg e]; subst hs
+        rcases c with rfl | rfl <;> exact core_c1 hch (by decide)
+  rw [if_neg c]; clear c
+  by_cases c : (ch == 34 || ch == 96) = true
+  · rw [if_pos c]
+    simp only [Bool.or_eq_true, beq_iff_eq] at c
+    subst hs
+    exact core_string s1 ch hch c
+  rw [if_neg c]; clear c
+  by_cases c : (ch == 0) = true
+  · rw [if_pos c]; have c := beq_iff_eq.mp c; subst c; subst hs
+    exact ⟨rfl, Or.inl ⟨rfl, Nat.le_refl _, hch, Or.inl rfl⟩⟩
+  rw [if_neg c]
+  have hz : ch ≠ 0 := by simpa using c
+  clear c
+  have hlt : s1.pos < s1.input.size := lt_size_of_peekAt_ne_zero (by rw [hch]; exact hz)
+  by_cases c : (ch == 46) = true
+  · rw [if_pos c]; have c := beq_iff_eq.mp c; subst c
+    by_cases d : (nc == 46) = true
+    · rw [if_pos d]; have d := beq_iff_eq.mp d; subst d; subst hs
+      exact core_c2 hch hnc (by decide) (by decide)
+    · rw [if_neg d]
+      by_cases e : (!isDigit nc) = true
+      · rw [if_pos e]; subst hs; exact core_c1 hch (by decide)
+      · rw [if_neg e]; subst hs
+        have h := readNumber_ok { s1 with pos := s1.pos + 1 } 46 s1.pos rfl hlt
+        exact ⟨h.2, Or.inr h.1⟩
+  rw [if_neg c]; clear c
+  by_cases c : isLetter ch = true
+  · rw [if_pos c]; subst hs
+    have h := readIdentifier_ok { s1 with pos := s1.pos + 1 } s1.pos rfl hlt
+    exact ⟨h.2, Or.inr h.1⟩
+  rw [if_neg c]; clear c
+  by_cases c : isDigit ch = true
+  · rw [if_pos c]; subst hs
+    have h := readNumber_ok { s1 with pos := s1.pos + 1 } ch s1.pos rfl hlt
+    exact ⟨h.2, Or.inr h.1⟩
+  rw [if_neg c]; clear c
+  subst hs
+  refine ⟨rfl, Or.inr ⟨by simp, by simp; omega, by simp [internTok, Tok.WF], by simp [internTok],
+    fun h => by simp [internTok] at h, fun _ h => by simp [internTok] at h,
+    fun _ h => by simp [internTok] at h, fun _ h => by simp [internTok] at h,
+    fun _ _ => ⟨rfl, by simp [internTok, hch]⟩⟩⟩
+
+theorem nextCore_spec (s1 : State) : CoreSpec s1 (nextCore s1) :=
+  nextSwitch_spec s1 _ _ rfl rfl _ rfl
+
 end Grol.Lexer
